@@ -274,6 +274,11 @@ class Result:
 # opts kinds out with NO_VARY = {"kind", ...} (e.g. kinds whose other parameters depend on the amplitude).
 
 AMPS = [2.0 ** -30, 2.0 ** 17, 2.0 ** -40, 2.0 ** 23]
+DEGEN = ["imag", "zends", "nyq", "dc"]
+
+# how many times the thorough tier runs each property's generator (chosen so that a property takes a few minutes)
+THOROUGH_ROUNDS = {"C01": 10, "C02": 6, "C03": 10, "C04": 10, "C05": 15, "C06": 4, "C07": 1, "C08": 2, "C09": 6, "C10": 2,
+                   "C11": 10, "C12": 5, "C13": 5, "C14": 8, "C15": 1, "C16": 8, "C17": 10, "C18": 6, "C19": 2, "C20": 2}
 
 
 def vary(mod, cases, tier):
@@ -290,9 +295,32 @@ def vary(mod, cases, tier):
         c = cnt[kind] = cnt.get(kind, 0) + 1
         if c % every:
             continue
-        w = (c // every) % (len(AMPS) + 2)
+        w = (c // every) % (len(AMPS) + 2 + len(DEGEN))
         q = dict(params)
-        if w < len(AMPS):
+        if w >= len(AMPS) + 2:
+            # degenerate-but-valid records derived from the case's own samples (same length, same real/complex class);
+            # kinds whose other parameters describe the content of x (tone positions, number of exponentials) opt out
+            if kind in getattr(mod, "NO_DEGEN", set()):
+                continue
+            d = DEGEN[w - len(AMPS) - 2]
+            n = np.arange(x.size)
+            if d == "imag":
+                if not np.iscomplexobj(x):
+                    continue
+                q["x"] = 1j * x.real                      # purely imaginary samples
+            elif d == "zends":
+                xx = x.copy()
+                xx[0] = 0
+                xx[-1] = 0
+                if x.size < 4 or not np.any(xx):
+                    continue                              # never an all-zero record
+                q["x"] = xx                               # exact zeros at both ends
+            elif d == "nyq":
+                q["x"] = x + 4 * np.max(np.abs(x)) * (-1.0) ** n     # dominant alternating-sign (Nyquist) tone
+            elif d == "dc":
+                q["x"] = x + 4 * np.max(np.abs(x))        # dominant tone exactly at DC
+            q["variant"] = "degen:" + d
+        elif w < len(AMPS):
             q["x"] = x * AMPS[w]
             if isinstance(q.get("y"), np.ndarray):
                 q["y"] = q["y"] * AMPS[w]
@@ -493,6 +521,21 @@ def main(argv):
         n_corpus = len(cases)
         res.count("corpus", n_corpus)
         cases += list(mod.gen(rng, nrng, tier))
+        if tier == "thorough":
+            # the thorough tier repeats the generator with fresh random streams (cases with an already seen key are dropped:
+            # the exhaustive parts of a generator are the same in every round)
+            seen = set()
+            for k, p_ in cases:
+                seen.add((k, mod.KINDS[k].get("key", lambda q: id(q))(p_)))
+            for r in range(1, THOROUGH_ROUNDS.get(prop, 1)):
+                rng_r = random.Random(seed * 1000003 + int(prop[1:]) + 7919 * r)
+                nrng_r = np.random.default_rng(seed * 1000003 + int(prop[1:]) + 7919 * r)
+                for k, p_ in mod.gen(rng_r, nrng_r, tier):
+                    key = (k, mod.KINDS[k].get("key", lambda q: id(q))(p_))
+                    if key not in seen:
+                        seen.add(key)
+                        cases.append((k, p_))
+            res.count("thorough-rounds", THOROUGH_ROUNDS.get(prop, 1))
         cases = vary(mod, cases, tier)
     if not driver_ok:
         # the model cannot be executed: oracle only, and the broken build is reported below
